@@ -364,7 +364,40 @@ def c19(pid, tier, t0):
     }, ["the message row is not compared", "with two windows only the differential (repaint) oracle is used", "right-to-left lines are not in these buffers"])
 
 
+REPLAY = {
+    "C02": ("c02_dirty", "plain", ["c02_dirty.c", "peek_ex.c", "peek_lbuf.c"], ["ex", "lbuf"]),
+    "C04": ("c04_vi_undo", "plain", ["c04_vi_undo.c"], []),
+    "C05": ("c05_safety", "asan", ["c05_safety.c"], []),
+    "C06": ("c06_exref", "plain", ["c06_exref.c", "peek_ex.c", "peek_lbuf.c"], ["ex", "lbuf"]),
+    "C07": ("c07_motions", "plain", ["c07_motions.c"], []),
+    "C08": ("c08_operators", "plain", ["c08_operators.c"], []),
+    "C09": ("c09_repeat", "plain", ["c09_repeat.c"], []),
+    "C13": ("c13_vikeys", "plain", ["c13_vikeys.c"], []),
+    "C16": ("c08_operators", "plain", ["c08_operators.c"], []),
+    "C19": ("c19_screen", "plain", ["c19_screen.c"], []),
+    "C20": ("c20_buffers", "plain", ["c20_buffers.c", "peek_ex.c", "peek_lbuf.c"], ["ex", "lbuf"]),
+}
+
+
 def replay(path):
-    print("replay artefact:")
-    print(open(path).read())
-    return 0
+    """Re-execute one recorded history without the explorer (explorer-based checks); otherwise print the artefact."""
+    import re, subprocess
+    txt = open(path).read()
+    print(txt)
+    m = re.search(r"^property=(C\d+)", txt, re.M)
+    a = re.search(r'args="([^"]*)"', txt)
+    if not m or not a or m.group(1) not in REPLAY or "kind=history" not in txt:
+        print("(this artefact names the failing case directly; re-run the check to re-evaluate it)")
+        return 0
+    name, variant, srcs, repl = REPLAY[m.group(1)]
+    exe = nv.build_harness(name, variant, srcs, replace=repl, wraps=WRAPS)
+    env = dict(os.environ)
+    env.update({"ASAN_OPTIONS": "detect_leaks=0:abort_on_error=1", "LC_ALL": "C", "EXINIT": "", "TAGPATH": "/nonexistent/tags"})
+    r = subprocess.run([exe] + a.group(1).split() + ["out=/dev/stdout"], stdout=subprocess.PIPE, stderr=subprocess.STDOUT, env=env, cwd=nv.OUT)
+    out = r.stdout.decode(errors="replace")
+    bad = [l for l in out.splitlines() if l.startswith(("VIOL ", "DEV "))]
+    print("--- replay of the recorded history on the current tree (%s) ---" % nv.NV_SRC)
+    for l in bad:
+        print(l[:1500])
+    print("replay: %s" % ("violation reproduced" if bad else "no violation on the current tree"))
+    return 1 if bad else 0
